@@ -502,6 +502,16 @@ func redactPipelineStage(stage interface{}, redactFieldNames bool, keyPath []str
 							isSelectivelyRedactable := isRedactableFieldPatternInArray(subVTyped)
 							newSubMap.Set(redactedSubK, redactArrayValues(subVTyped, redactFieldNames, inSearchStage, isSelectivelyRedactable, append(newKeyPath, subK)))
 						default:
+							if str, ok := subV.(string); ok && len(str) > 0 && str[0] == '$' && !inSearchStage {
+								// a '$field' reference / variable (e.g. $group._id: "$customer"), not a literal:
+								// kept, or renamed like every other reference when field names are redacted
+								if _, isOp := getOp([]string{str}, inSearchStage); redactFieldNames && !isOp {
+									newSubMap.Set(redactedSubK, HashName(str))
+								} else {
+									newSubMap.Set(redactedSubK, subV)
+								}
+								continue
+							}
 							newSubMap.Set(redactedSubK, redactScalarValue(append(newKeyPath, subK), subV, inSearchStage, false))
 						}
 					}
@@ -509,9 +519,21 @@ func redactPipelineStage(stage interface{}, redactFieldNames bool, keyPath []str
 					continue
 				}
 			}
-			if str, ok := v.(string); ok && len(str) > 0 && str[0] == '$' && !redactFieldNames {
-				newMap.Set(redactedKey, v)
-				continue
+			if str, ok := v.(string); ok && len(str) > 0 && str[0] == '$' {
+				if !redactFieldNames {
+					newMap.Set(redactedKey, v)
+					continue
+				}
+				if !inSearchStage {
+					// field-name redaction: a '$field' reference gets the field's pseudonym (as it does
+					// inside expression arrays), operators and '$$' system variables are kept
+					if _, isOp := getOp([]string{str}, inSearchStage); isOp || strings.HasPrefix(str, "$$") {
+						newMap.Set(redactedKey, v)
+					} else {
+						newMap.Set(redactedKey, HashName(str))
+					}
+					continue
+				}
 			}
 			if _, ok := v.(string); ok && !inSearchStage && (k == "$out" || k == "$merge" || k == "$unionWith") {
 				if _, isStageWithNamespace := opMeta.(*orderedmap.OrderedMap[string, any]); isStageWithNamespace {
